@@ -35,6 +35,29 @@ site: http://bugseng.com/products/ppl/ . */
 # include <sys/time.h>
 #endif
 
+#ifdef PPL_VERIF_HOOKS
+// Verification hooks (add-only; vanish textually without PPL_VERIF_HOOKS).
+// The timer system calls go through these pointers (default: the real
+// system calls) and PPL_VERIF_YIELD(n) calls `yield_p' (default: null,
+// i.e., nothing) at the statement boundaries of the bookkeeping code.
+struct itimerval;
+struct sigaction;
+namespace Parma_Polyhedra_Library {
+namespace Verif_Hooks {
+extern int (*getitimer_p)(int, struct itimerval*);
+extern int (*setitimer_p)(int, const struct itimerval*, struct itimerval*);
+extern int (*sigaction_p)(int, const struct sigaction*, struct sigaction*);
+extern void (*yield_p)(int);
+} // namespace Verif_Hooks
+} // namespace Parma_Polyhedra_Library
+#define PPL_VERIF_YIELD(n)                                              \
+  if (Parma_Polyhedra_Library::Verif_Hooks::yield_p != 0) {             \
+    (*Parma_Polyhedra_Library::Verif_Hooks::yield_p)(n);                \
+  }
+#else
+#define PPL_VERIF_YIELD(n)
+#endif
+
 namespace Parma_Polyhedra_Library {
 
 // Set linkage now to declare it friend later.
